@@ -36,11 +36,6 @@ for _l in ('dex', 'small', 'recursive_with_poseidon', 'starknet'):
 # DEEP (OODS) evaluator only; the composition evaluator of this layout (10 k lines) is out of memory reach (DESIGN section 2)
 UNITS['autogen_starknet_with_keccak'] = autogen_unit('starknet_with_keccak', mem_kb=50_000_000)
 UNITS['autogen_starknet_with_keccak']['stack'] = 2 << 30
-# dynamic layout: DEEP evaluator only (column indices come from the proof-supplied dynamic parameters; their range is an assumed
-# precondition, established by check_asserts which is not under contract); the composition evaluator (15 k lines) is out of reach
-UNITS['autogen_dynamic'] = autogen_unit('dynamic', mem_kb=50_000_000)
-UNITS['autogen_dynamic']['stack'] = 4 << 30
-
 # hash / stone variants of the core unit (thorough tier): the templates were written against keccak_160_lsb + stone5, the other
 # variants go through the transplant path (cfg resolution selects the other hash constructors / digest windows)
 CORE_FRAGS = UNITS['core']['fragments']
